@@ -3,7 +3,7 @@
    reduced used', so the allocator theorems apply to it. *)
 From Coq Require Import List ZArith Bool Arith Lia Permutation.
 From Verif Require Import C07.Model C07.Spec C07.Proofs_Res C07.Proofs_Ledger C07.Proofs_View
-  C07.Proofs_Alloc C07.Proofs_Allocate.
+  C07.Proofs_Alloc C07.Proofs_Allocate C07.Proofs_Desig C07.Proofs_AllocateR.
 Import ListNotations.
 Open Scope Z_scope.
 
@@ -115,6 +115,7 @@ Section PreemptType.
   Variable count : Z.
   Variable shared : bool.
   Hypothesis Hcount : 1 <= count.
+  Hypothesis Hper : most_of kind = true -> res_nonneg per = true.
   Let pl := preempt_ledger l victims.
   Let lp := ledger_p l (preempt_of l victims).
 
@@ -128,7 +129,7 @@ Section PreemptType.
     intros H.
     pose proof (ledger_p_fs l (preempt_of l victims) (lg_fs _ G)) as FSp.
     pose proof (ledger_p_used_nonneg l (preempt_of l victims) (lgood_used_nonneg _ G)) as Hup.
-    apply (alloc_core_sound kind infos t (used l) lp FSp (lg_tot _ G) Hup per count shared false Hcount)
+    apply (alloc_core_sound kind infos t (used l) lp FSp (lg_tot _ G) Hup per count shared false Hcount Hper)
       in H as [Len [ND Hall]].
     rewrite <- Len, <- (map_length fst al). unfold maybe_count.
     apply NoDup_incl_length; auto. intros m Hm. apply in_map_iff in Hm as [a [<- Ha]].
@@ -192,9 +193,10 @@ Qed.
 
 Lemma check_preempt_model k kind ls infos rq victims :
   k_prev k = ls -> k_infos k = infos -> k_kind k = kind -> (forall t, lgood (ledger_of ls t)) ->
+  raw_nonneg rq = true ->
   check_preempt k rq victims (out_code (preempt_verdict kind ls infos rq victims)) = 0.
 Proof.
-  intros E1 E2 E3 G. unfold check_preempt. rewrite E1, E2, E3. cbn [o_code out_code].
+  intros E1 E2 E3 G NN. unfold check_preempt, refused_ok, skip_ok. rewrite E1, E2, E3. cbn [o_code out_code].
   rewrite preempt_verdict_unfold. cbn zeta. cbn [existsb forallb type_ids].
   destruct (is_invalid (treq_of rq 0) || _) eqn:I.
   { unfold c_unresolvable. cbn [Z.eqb Pos.eqb]. reflexivity. }
@@ -227,7 +229,7 @@ Proof.
   { intros S t. unfold preempt_enough_t. destruct (treq_of rq t) as [| |per count sh] eqn:E; auto.
     destruct (alloc_type_on kind ls infos t per count sh victims) eqn:A; [|discriminate]. intros _.
     apply Nat.leb_le. pose proof (sched_ok_pfit kind ls rq t per count sh S E) as Pf.
-    apply treq_spec in E as [Hc _]. eapply alloc_type_on_sound; eauto. }
+    apply treq_spec in E as [Hc [Hp _]]. eapply alloc_type_on_sound; eauto. }
   match goal with |- context [if ?b then c_unsched else c_ok] => destruct b eqn:R end.
   - unfold c_unsched. cbn [Z.eqb Pos.eqb]. unfold chk.
     apply orb_true_iff in R as [R|R]; [rewrite (Short _ R); reflexivity|].
